@@ -208,7 +208,9 @@ PROPS = {
                           "marshal_error_passthrough", "parse_marshal", "unmarshal_is_inner", "readVarint_varint"]],
             "leanchecker": ["GcpVerif.Proofs.Checksum"],
             "trusted_base": CK_TB, "assumptions": ["the message type does not define field 2047 itself"]},
-    "C01": pool_prop(["bound_ready_home", "bound_notready_no_fallback", "unknown_key", "bind_bound_key_noop", "bind_new_key", "unbind_removes", "unbind_other", "lookup_preserves_binding"]),
+    "C01": dict(pool_prop([], ["Reach-level theorems assume gRPC's contract (RunOk: Shutdown is reported only for removed connections)"]),
+                theorems=pool_thms(["bound_ready_home", "bound_notready_no_fallback", "unknown_key", "bind_bound_key_noop", "bind_new_key", "unbind_removes", "unbind_other", "lookup_preserves_binding"]) +
+                [("GcpVerif.Proofs.PoolKeys", "GcpVerif.Pool." + n) for n in ["bound_key_in_pool", "binding_stable", "keyed_run", "stable_swap"]]),
     "C02": pool_prop(["streams_exact", "streams_nonneg", "streams_zero_when_idle", "run_inv", "leastBusy_spec", "leastBusy_first_on_tie", "below_watermark_places"], ["placement and increment are treated as one atomic step (exact for picks on one picker; picks on different pickers may interleave scan and increment)"]),
     "C03": dict(pool_prop([], ["size bound: minSize <= maxSize and no Shutdown report for a current pool member (RunOk; known finding K6 outside, kernel-checked witness size_bound_needs_contract)"]),
                 theorems=pool_thms(["growth_only_when_saturated", "at_max_places_anyway", "below_watermark_places"]) +
@@ -221,7 +223,8 @@ PROPS = {
                 ["pool_never_panics", "slots_exist", "valid_run"]]),
     "C06": pool_prop_plus([], [("GcpVerif.Proofs.Sync", "GcpVerif.Sync.c06_no_self_acquire"), ("GcpVerif.Proofs.Sync", "GcpVerif.Sync.c06_order_acyclic")], ["wall-clock bounds are observed by the harness watchdog (3 s per call), not proved"]),
     "C07": pool_prop(["disabled_never_refreshes", "response_resets", "isResponse_iff", "stale_call_ignored", "refresh_trigger", "window_exponential", "window_monotone_or_saturated", "refresh_once"], ["unresponsive_detection_ms * 2^k < 2^32 (the Go code computes the window in uint32; known finding K2)"]),
-    "C08": pool_prop(["fallback_sticky", "fallback_new", "bound_ready_home", "lookup_preserves_binding"]),
+    "C08": dict(pool_prop([]), theorems=pool_thms(["fallback_sticky", "fallback_new", "bound_ready_home", "lookup_preserves_binding"]) +
+                [("GcpVerif.Proofs.PoolKeys", "GcpVerif.Pool." + n) for n in ["fallback_key_in_pool", "keyed_run"]]),
     "C09": pool_prop(["rr_next_slot", "rrSlot_succ"], ["fairness: the cursor does not pass 2^32-1 inside the window unless n divides 2^32 (known finding K1); no Shutdown report for a pool member"]),
     "C20": dict(pool_prop(["resolver_error_identity"]), theorems=pool_thms(["resolver_error_identity"]) + [("GcpVerif.Proofs.Ties", "GcpVerif.Ties.resolver_error_only_logs")]
                 + [("GcpVerif.Proofs.PoolAddrs", "GcpVerif.Pool." + n) for n in ["addrs_current", "addrsCur_run", "ccs_connects_all", "ccs_sets_addrs"]]),
